@@ -505,7 +505,7 @@ pub fn run(cfg: &Cfg) -> Report {
     report.absorb(order_axioms(cfg));
 
     // Part C: random histories
-    let nh = cfg.tier.pick(40_000, 1_000_000);
+    let nh = cfg.tier.pick(250_000, 5_000_000);
     let seed = cfg.seed;
     let ctx = par_range(cfg, nh, |ctx, k| {
         let mut rng = Rng::stream(seed, k as u64);
